@@ -1,6 +1,8 @@
 #!/usr/bin/env python3
 """regression over all stored seeded changes: apply each patch to /repo, run the check(s) recorded as catching it, revert.
 Every seed must still be reported (exit 1 with a VIOLATION line) by at least one of them."""
+import os as _os
+_os.environ.setdefault('PYVC_EVIDENCE_DIR', '/tmp/pyvc_evidence_scratch')
 import glob, json, os, subprocess, sys, time
 def sh(cmd):
     r = subprocess.run(cmd, shell=True, capture_output=True, text=True)
